@@ -257,6 +257,19 @@ def c07(work, tier, seed):
         mk(p, 2, i)
     for i, p in enumerate(il3):
         mk(p, 3, i)
+    # tunnels of different users under a host list with the user placeholder: each user's own substituted entry is
+    # allowed on his tunnel and the other user's is not, in whatever order the tunnels get there
+    for i, p in enumerate(il2[:6] + il3[:6] if tier == "quick" else il2[:40] + il3[:40]):
+        ntun = 2 + (max(p) == 2)
+        cfg = {"tokenAuth": False, "smartCard": False, "auth": "ntlm", "users": "ntlm", "sel": ["roundrobin", "unsigned"][i % 2], "hosts": [["H127", "PH", ":", "PA"]], "verifyIp": True, "idle": 0}
+        tunnels = []
+        for k in range(ntun):
+            user = ["7", "8", "7"][k]
+            asks = user if (i + k) % 3 else {"7": "8", "8": "7"}[user]      # mostly the own entry, sometimes the other user's
+            steps = [{"k": "hs", "cls": "valid", "caps": 0, "major": 1, "minor": k}, {"k": "create", "cls": "valid", "cookie": "none"}, {"k": "auth", "cls": "valid"},
+                     {"k": "chan", "cls": "valid", "name": ["H127", asks], "port": "PA"}, {"k": "keepalive", "cls": "valid"}, {"k": "keepalive", "cls": "valid"}, {"k": "keepalive", "cls": "valid"}]
+            tunnels.append({"transport": ["ws", "legacy"][(i + k) % 2], "tun": {"user": user, "hostName": ["H127", user], "hostPort": "PA", "entry": ["H127", "PH", ":", "PA"]}, "steps": steps})
+        scripts.append({"id": "m%05d" % len(scripts), "origin": "placeholder:%d" % ntun, "cfg": cfg, "tunnels": tunnels, "schedule": p})
     # two tunnels that present connection files which ONE logged-in session downloaded for two different hosts (plus a
     # third tunnel of somebody else): each is bound to the host of its own token
     for i, p in enumerate(il2[:8] + il3[:8] if tier == "quick" else il2[:60] + il3[:60]):
